@@ -739,10 +739,14 @@ impl DhtNetworkManager {
             value: value.clone(),
         };
 
-        // Find closest nodes for replication using network lookup
-        let closest_nodes = self
+        // Find closest nodes for replication using network lookup. The result ranks
+        // the local node too; it stores directly and is never a network target.
+        let closest_nodes: Vec<DHTNode> = self
             .find_closest_nodes_network(&key, self.config.replication_factor)
-            .await?;
+            .await?
+            .into_iter()
+            .filter(|node| !self.is_local_peer_id(&node.peer_id))
+            .collect();
 
         debug!(
             "find_closest_nodes returned {} nodes for key: {}",
